@@ -22,8 +22,8 @@ import (
 // All non-test files of the package are parsed together. A package-level
 // variable is "suspect" when somewhere in the package it (or something
 // reached through it) is assigned, incremented, has its address taken, is
-// sliced, is the target of copy/append, or has a method/func field called on
-// it. Before every statement that mentions a suspect variable the call
+// sliced, is the target of copy/append, is handed to a function as an
+// argument, or has a method/func field called on it. Before every statement that mentions a suspect variable the call
 //
 //	verifvs.Access("<names>")
 //
@@ -146,6 +146,12 @@ func globalsMode(dir, outPrefix, shim string) {
 				}
 				if s, ok := x.Fun.(*ast.SelectorExpr); ok {
 					mark(s.X)
+				}
+				// handed to a callee (which may write through a slice, map or pointer)
+				if id, ok := x.Fun.(*ast.Ident); !ok || (id.Name != "len" && id.Name != "cap") {
+					for _, a := range x.Args {
+						mark(a)
+					}
 				}
 			}
 			return true
